@@ -334,6 +334,11 @@ func cmdShrink(args []string) int {
 	}
 	// (1) confirm: the recorded trace (with its blobs) must fail the same way in this process.
 	r0 := ExecTrace(c, *tier, rec.Index, rec.Seed, rec.Trace, rec.Blobs, kf)
+	for attempt := 0; attempt < 5 && r0.HarnessErr == "" && r0.Viol == nil; attempt++ {
+		// the trace is fixed; when the verdict is not, the code under test made a choice of its own
+		// (it ranged over a map, say). A few more executions usually meet the same turn again.
+		r0 = ExecTrace(c, *tier, rec.Index, rec.Seed, rec.Trace, rec.Blobs, kf)
+	}
 	if r0.HarnessErr != "" || r0.Viol == nil {
 		fmt.Fprintf(os.Stderr, "HARNESS: recorded violation did not re-execute (got %v, harness err %q)\n", r0.Viol, r0.HarnessErr)
 		return 2
